@@ -48,6 +48,16 @@ FamilyNested == { << Fact("f"), Fact("g") >> \o qs \o ps \o as :
                     as \in { << Rule("a", << L(1, "a") >>), Rule("a", << L(1, "f") >>) >>,
                              << Rule("a", << L(1, "f") >>), Rule("a", << L(1, "a"), L(1, "g") >>) >>,
                              << Rule("a", << L(1, "p") >>), Rule("a", << L(1, "f") >>) >> } }
+\* a negated goal with a positive cycle of its own, evaluated while an enclosing cycle is open (the shape of KF2):
+\* a :- \+r.  r :- r.  r :- \+p.  p :- p.   - stratified, yet connecting p's cycle to the open root walks through the EvalNot
+FamilyKF2 == { << Fact("f"), Fact("g") >> \o as \o rs \o ps :
+                 as \in { << Rule("a", << L(0, "r") >>) >>, << Rule("a", << L(0, "r"), L(1, "f") >>) >>, << Rule("a", << L(1, "r") >>) >> },
+                 rs \in { << Rule("r", << L(1, "r") >>), Rule("r", << L(0, "p") >>) >>,
+                          << Rule("r", << L(0, "p") >>), Rule("r", << L(1, "r") >>) >>,
+                          << Rule("r", << L(1, "r"), L(1, "g") >>), Rule("r", << L(0, "p"), L(1, "f") >>) >> },
+                 ps \in { << Rule("p", << L(1, "p") >>) >>, << Rule("p", << L(1, "p") >>), Rule("p", << L(1, "g") >>) >>,
+                          << Rule("p", << L(1, "g") >>), Rule("p", << L(1, "p"), L(1, "f") >>) >> } }
+QSa == { << "a" >>, << "r" >>, << "p", "a" >> }
 SmallPrograms == FamilyPQ
 AllPrograms   == FamilyPQ \cup FamilyDeep
 QS2 == { << "p" >>, << "p", "q" >>, << "q", "p" >> }
